@@ -403,10 +403,12 @@ Definition d_aitem (s : sexp) : option aitem :=
   | _ => None
   end.
 Definition e_avalue (v : avalue) : sexp :=
-  match v with AvInt t => e_tag "vi" [SStr t] | AvText t => e_tag "vt" [SStr t] end.
+  match v with AvInt t => e_tag "vi" [SStr t] | AvText t => e_tag "vt" [SStr t]
+             | AvDouble t r => e_tag "vd" [SStr t; SStr r] end.
 Definition d_avalue (s : sexp) : option avalue :=
   match s with
   | SList [SAtom k; SStr t] => if String.eqb k "vi" then Some (AvInt t) else Some (AvText t)
+  | SList [SAtom _; SStr t; SStr r] => Some (AvDouble t r)
   | _ => None
   end.
 Definition e_adomain (d : adomain) : sexp :=
